@@ -21,7 +21,7 @@ clean
 ok=1
 echo "$A" | grep -Eq "(58|59|60) passed, 0 skipped" || ok=0
 echo "$B" | grep -q "57 passed" || ok=0
-echo "$C" | grep -Eq "57 passed, [1-3] failed" || ok=0
+echo "$C" | grep -Eq "(57|58|59) passed, [1-3] failed" || ok=0
 if [ $ok = 1 ]; then
   D=/verif/seeded/$P-$L; mkdir -p $D
   cp "$PATCH" $D/patch.diff; cp "$DEMO" $D/demo.diff; cp /tmp/mut/$P.$L.meta.txt $D/agent_notes.txt
